@@ -27,6 +27,7 @@ func Run(k *report.Check) {
 	k.Rule = "every operation sequence up to the stated depth over keys {\"\",a,ab,b,ba} (duplicates, prefixes, equal priorities, empty structure) per structure; zip-tree ranks are an enumerated choice in {0,1,2}; non-trivial = distinct canonical (structure contents, last operation) reached with at least one replacement, tie, deletion or eviction"
 	k.Assumptions = []string{"comparison functions are total orders", "key/value bytes outside the alphabet are not explored"}
 	k.Budget(100, 1200)
+	k.Parts(10)
 	d := func(q, t int) int { return k.Pick(q, t) }
 	k.Explore(fmt.Sprintf("ziptree/d=%d", d(5, 6)), mc.Config{}, d(5, 6), zipTree)
 	k.Explore(fmt.Sprintf("heap/d=%d", d(7, 9)), mc.Config{}, d(7, 9), heapBody)
